@@ -73,6 +73,62 @@ def entry_exp(Y, idx):
     return m, e
 
 
+def replay_rounding_stab(ctx, rng, quick):
+    """Stabilised rounding at the thresholds: members of the distinct-last-index family (Rounding.tla, exact outcomes for
+    every threshold T + 1/2 and cap) with every core scaled by 2^450 or 2^-150, so that the tensor or at least its squared norm is outside
+    the double range.  Ranks must be the specification's, the discarded part (through Gram chains of the normalised
+    cores) the specification's dropped energy."""
+    from . import rounding as RD
+    cases = RD.emit(ctx, 'Rounding_c02_q.cfg', 'Rounding rtl (thresholds for stabilised rounding far outside the double range)', workers=16)
+    cases = [c for c in cases if not RD.tiered(c) and not any(o['tie'] for o in c['outcomes']) and c['N'] > 0]
+    for j in rng.permutation(len(cases))[:(500 if quick else 5000)]:
+        case = cases[j]
+        d = case['d']
+        base, n = F.family_member(d, case['npre'], RD.phys_ent(case))
+        base, Qs = F.apply_symmetries(base, n, rng, pad=False)
+        # huge cores at will; the product of two adjacent tiny cores stays above core_stab's documented threshold 1e-100 (2^-332),
+        # below which a core is handed through unscaled
+        sh = [int(rng.choice([450, 430])) if j % 2 else -int(rng.choice([150, 160]))] * d
+        S = sum(sh)
+        Y = [G * 2.0 ** s_ for G, s_ in zip(base, sh)]
+        N, T = float(case['N']), case['T']
+        e = float(np.sqrt((2 * T + 1) * (d - 1) / (2.0 * N)))
+        cap = case['cap'] if case['cap'] != 99 else 1.E+12
+        eig = bool(rng.integers(2))
+        o = case['outcomes'][0]
+        what = 'truncate(e=%.4g, r=%s, use_stab=True, is_eigh=%s) with every core times 2^%d' % (e, case['cap'], eig, sh[0])
+        ctx.case(key=('rounding-stab', case['ent'], T, case['cap'], eig, sh[0]), nontrivial=o['dropped'] > 0)
+        try:
+            Z = teneva.truncate(Y, e, cap, use_stab=True, is_eigh=eig)
+        except Exception as ex:
+            ctx.violation('truncate:stab-raises', '%s raised %s: %s' % (what, type(ex).__name__, ex), case=case)
+            continue
+        if not ctx.check(F.is_wellformed(Z, n), 'truncate:stab', '%s: cores not finite / malformed' % what, case=case):
+            continue
+        rz = [int(G.shape[2]) for G in Z[:-1]]
+        if not ctx.check(rz == o['ranks'], 'truncate:stab-ranks', '%s: ranks %s, specification %s' % (what, rz, o['ranks']), case=case):
+            continue
+        Zb, SZ = [], 0
+        for G in Z:
+            mx = float(np.abs(G).max())
+            e_ = int(np.floor(np.log2(mx))) if mx > 0 else 0
+            Zb.append(G / 2.0 ** e_)
+            SZ += e_
+
+        def gram(A, B):
+            w = np.ones((1, 1))
+            for Ga, Gb in zip(A, B):
+                w = np.einsum('ab,aic,bid->cd', w, Ga, Gb)
+            return float(w[0, 0])
+        dd = SZ - S
+        okd = abs(dd) < 900
+        if okd:
+            f = 2.0 ** dd
+            dist2 = f * f * gram(Zb, Zb) - 2 * f * gram(Zb, base) + gram(base, base)
+            okd = abs(dist2 - o['dropped']) <= 1e-7 * N
+        ctx.check(bool(okd), 'truncate:stab', '%s: the discarded part is not the specification\'s (dropped energy %s of %s)' % (what, o['dropped'], case['N']), case=case)
+
+
 def run(ctx):
     ctx.rule = ('cases = block profiles emitted by TLC (d up to 6000, exponents to +-60000) x routine; distinct = (profile, routine); '
                 'non-trivial = total exponent outside the double range or d >= 500')
@@ -82,6 +138,7 @@ def run(ctx):
     res = tlc.run('Stab', cfg='Stab.cfg' if quick else 'Stab_t.cfg', workers=16, timeout=3000)
     ctx.add_tlc(res, 'Stab: normal forms of the exact scalar product for every block profile; shift lemma')
     rng = np.random.default_rng(ctx.seed)
+    replay_rounding_stab(ctx, np.random.default_rng(ctx.seed + 11), quick)
     rows = [r_ for r_ in res.json if r_['d'] >= 2]
     if len(rows) > (120 if quick else 4000):
         rows = [rows[j] for j in rng.permutation(len(rows))[:(120 if quick else 4000)]]
